@@ -174,6 +174,11 @@ Definition start_slot_val (c : config) (e : N) : N :=
 Definition count_true (l : list bool) : N := N.of_nat (length (filter (fun x => x) l)).
 Definition lenN {A} (l : list A) : N := N.of_nat (length l).
 Definition memN (x : N) (l : list N) : bool := existsb (N.eqb x) l.
+(* firstn/skipn with a binary counter (Go slice bounds are uint64: never unfold a unary number) *)
+Fixpoint skipN {A} (n : N) (l : list A) : list A :=
+  match l with [] => [] | _ :: t => if n =? 0 then l else skipN (n - 1) t end.
+Fixpoint firstN {A} (n : N) (l : list A) : list A :=
+  match l with [] => [] | x :: t => if n =? 0 then [] else x :: firstN (n - 1) t end.
 
 (* a check sequence either stops with a result or goes on with a value *)
 Inductive step A := Stop (r : result) | Go (a : A).
@@ -730,7 +735,7 @@ Section WithBackend.
 
   (* IndexedSyncCommittee.Subcommittee(spec, subnet): the indices slice *)
   Definition subcommittee (indices : list N) (sub : N) : list N :=
-    firstn (N.to_nat subcommittee_size) (skipn (N.to_nat (subcommittee_size * sub)) indices).
+    firstN subcommittee_size (skipN (subcommittee_size * sub) indices).
 
   (* hash_tree_root(SyncAggregatorSelectionData{slot, subcommittee_index}) as bytes *)
   Definition sync_selection_data_htr (slot sub : N) : bytes := H b (u64_htr_bytes slot ++ u64_htr_bytes sub).
